@@ -732,6 +732,26 @@ def rule_condition_parens(ctx, prop):
         if not rep.anchor(f is not None, "remove_condition_parentheses", cfg):
             continue
         rec = [b for b, t in f.calls() if callee(t).endswith("remove_condition_parentheses")]
+        # who may call it: the operand handed over is a *condition* (of if / elseif / while / repeat-until / if-expression) - the
+        # function strips an outer pair unconditionally, without asking check_excess_parentheses, which is only right where the
+        # grammar wants exactly one value
+        ok_callers, bad_callers = [], []
+        for g in prog.fns("stylua_lib"):
+            for b, t in g.calls():
+                if not callee(t).endswith("stmt::remove_condition_parentheses") or g is f:
+                    continue
+                calls = prov_calls(provenance(g, t["args"][0])) if t["args"] else set()
+                src = sorted(c.split("::")[-1] for c in calls)
+                is_cond = any(re.search(r"::(If|ElseIf|While|IfExpression|ElseIfExpression)::condition$|::Repeat::until$|(^|::)condition$|(^|::)until$", c)
+                              for c in calls)
+                (ok_callers if is_cond else bad_callers).append((g, t, src))
+        rep.inst(f"{f.key} is only given conditions", {"call_sites": len(ok_callers) + len(bad_callers)}, cfg, ok=not bad_callers)
+        for g, t, src in bad_callers[:3]:
+            rep.violation(f"{g.key} condition-parentheses-removal-on-non-condition from={','.join(src) or 'parameter'}",
+                          f"{g.path} hands remove_condition_parentheses an expression that is not a condition (it derives from "
+                          f"{src or 'a parameter'}): the outer parentheses are stripped without consulting check_excess_parentheses, so "
+                          f"`(f())` / `(...)` in a multi-value position (last argument, last return value) is un-truncated", g.loc(t["sp"]), cfg)
+        rep.floor("call sites of remove_condition_parentheses", len(ok_callers) + len(bad_callers), 4, cfg)
         try:
             res = Enumerator(f, summaries=False, max_paths=2000).run()
         except TooManyPaths:
